@@ -5,7 +5,7 @@ From Coq Require Import String List ZArith Bool Lia Arith.
 From Qeep Require Import Model.Scalar Model.Nd Model.Fill Model.Data Model.Valid Model.Api Model.Grad Model.Backprop.
 From Qeep Require Import Model.DataIR Model.GoGrad Model.HeapExt Proofs.DataIRP Proofs.NdP.
 From Qeep Require Import Proofs.BackpropP.
-From Qeep Require Proofs.DfsP.
+From Qeep Require Proofs.TrackP Proofs.DfsP.
 From Qeep Require Model.GoIR.
 Import ListNotations.
 Local Open Scope string_scope.
@@ -199,4 +199,367 @@ Qed.
    its nil result as the gradient of the target *)
 Definition errHeap (hm hg : heap) : Prop := hg = hm \/ exists t, hg = setGrad hm t None.
 
+
+(* ------------------------------------------------------------------------------------ *)
+(* 4. the inner loop: the back edges of one context                                      *)
+(* ------------------------------------------------------------------------------------ *)
+
+Definition encE (c : nat) (p : nat * (nat * rule)) : dval :=
+  DL [DI (Z.of_nat (fst (snd p))); DI (Z.of_nat c); DI (Z.of_nat (fst p))].
+
+Lemma encEdges_eq c es : encEdges c es = DL (map (encE c) (combine (seq 0 (length es)) es)).
+Proof. reflexivity. Qed.
+
+Lemma inner_loop (body : heap -> denv -> denv -> doutcome)
+      (assign : denv -> denv -> Z -> dval -> denv * denv) (c : nat) :
+  (forall (s : heap) g (k : nat) e, (c < length s)%nat -> nth_error (edgesOf s c) k = Some e -> (fst e < length s)%nat ->
+     let '(g0, l0) := assign g [] (Z.of_nat k) (encE c (k, e)) in
+     match process_edge rd c (s, Ok tt) e with
+     | (s', Ok _) => exists g1, body s g0 l0 = DNormal heap s' g1 [] \/ body s g0 l0 = DContinue heap s' g1 []
+     | (s', Err) => exists s'' g1, body s g0 l0 = DRet heap [DI 1] s'' g1 [] /\ errHeap s' s''
+     | (_, Panic) => body s g0 l0 = DPanic heap
+     end) ->
+  forall suf pre (s : heap) g,
+  edgesOf s c = pre ++ suf -> (c < length s)%nat -> (forall e, In e suf -> (fst e < length s)%nat) ->
+  match fold_left (process_edge rd c) suf (s, Ok tt) with
+  | (s', Ok _) => exists g1, drangeLoop heap body assign (map (encE c) (combine (seq (length pre) (length suf)) suf))
+                               (Z.of_nat (length pre)) s g [] = DNormal heap s' g1 []
+  | (s', Err) => exists s'' g1, drangeLoop heap body assign (map (encE c) (combine (seq (length pre) (length suf)) suf))
+                               (Z.of_nat (length pre)) s g [] = DRet heap [DI 1] s'' g1 [] /\ errHeap s' s''
+  | (_, Panic) => drangeLoop heap body assign (map (encE c) (combine (seq (length pre) (length suf)) suf))
+                               (Z.of_nat (length pre)) s g [] = DPanic heap
+  end.
+Proof.
+  intros Hb. induction suf as [|e suf IH]; intros pre s g Hed Hc Hrng.
+  - cbn. eauto.
+  - cbn [length seq combine map drangeLoop fold_left].
+    assert (Hn : nth_error (edgesOf s c) (length pre) = Some e) by (rewrite Hed; apply nth_error_mid').
+    pose proof (Hb s g (length pre) e Hc Hn (Hrng e (or_introl eq_refl))) as H1.
+    destruct (assign g [] (Z.of_nat (length pre)) (encE c (length pre, e))) as [g0 l0].
+    pose proof (process_edge_sameS c s e) as HS.
+    destruct (process_edge rd c (s, Ok tt) e) as [s1 r1]. cbn [fst] in HS.
+    destruct r1 as [[]| |].
+    + destruct H1 as [g1 H1].
+      assert (Hed1 : edgesOf s1 c = (pre ++ [e]) ++ suf).
+      { rewrite <- (sameS_edges _ _ HS), Hed, <- app_assoc. reflexivity. }
+      assert (Hc1 : (c < length s1)%nat) by (rewrite <- (proj1 HS); exact Hc).
+      assert (Hr1 : forall e0, In e0 suf -> (fst e0 < length s1)%nat).
+      { intros e0 H0. rewrite <- (proj1 HS). apply Hrng. right. exact H0. }
+      specialize (IH (pre ++ [e]) s1 g1 Hed1 Hc1 Hr1).
+      replace (length (pre ++ [e])) with (S (length pre)) in IH by (rewrite app_length; cbn [length]; lia).
+      replace (Z.of_nat (length pre) + 1) with (Z.of_nat (S (length pre))) by lia.
+      destruct H1 as [H1|H1]; rewrite H1; exact IH.
+    + rewrite pe_sticky by discriminate. destruct H1 as (s'' & g1 & H1 & He). rewrite H1. eauto.
+    + rewrite pe_sticky by discriminate. rewrite H1. reflexivity.
+Qed.
+
+
+(* ------------------------------------------------------------------------------------ *)
+(* 5. the outer loop: the contexts of the order                                          *)
+(* ------------------------------------------------------------------------------------ *)
+
+Lemma pe_fold_sameS c es : forall (s : heap), sameS s (fst (fold_left (process_edge rd c) es (s, Ok tt))).
+Proof.
+  induction es as [|e es IH]; intros s; cbn [fold_left]; [apply sameS_refl|].
+  pose proof (process_edge_sameS c s e) as HS.
+  destruct (process_edge rd c (s, Ok tt) e) as [s1 r1]. cbn [fst] in HS.
+  destruct r1 as [[]| |].
+  - eapply sameS_trans; [exact HS|apply IH].
+  - rewrite pe_sticky by discriminate. exact HS.
+  - rewrite pe_sticky by discriminate. exact HS.
+Qed.
+
+(* gradients are never removed, and every tracked target of a successfully processed edge list has one *)
+Lemma pe_fold_grads c es : forall (s s' : heap),
+  fold_left (process_edge rd c) es (s, Ok tt) = (s', Ok tt) ->
+  (forall x, gradOf s x <> None -> gradOf s' x <> None) /\
+  (forall e, In e es -> trackedOf s (fst e) = true -> gradOf s' (fst e) <> None).
+Proof.
+  induction es as [|e es IH]; intros s s' E.
+  - cbn [fold_left] in E. inversion E; subst s'. split; [auto|intros e []].
+  - destruct (pe_fold_cons _ _ _ _ _ _ E) as (s1 & E1 & E2).
+    destruct (IH s1 s' E2) as (Imono & Itgt). clear IH.
+    assert (Hmono1 : forall x, gradOf s x <> None -> gradOf s1 x <> None).
+    { intros x Hx. destruct (process_edge_ok _ _ _ _ _ E1) as [[_ ->]|[Et (g & o' & _ & Hacc & ->)]]; [exact Hx|].
+      rewrite gradOf_setGrad. destruct (x =? fst e)%nat; [|exact Hx].
+      pose proof (tracked_lt _ _ Et) as Hlt. apply Nat.ltb_lt in Hlt. rewrite Hlt. eapply acc1_some; eauto. }
+    split; [intros x Hx; apply Imono, Hmono1, Hx|].
+    intros e0 [<-|H0] Ht.
+    + apply Imono. destruct (process_edge_ok _ _ _ _ _ E1) as [[Et _]|[Et (g & o' & _ & Hacc & ->)]]; [congruence|].
+      rewrite gradOf_setGrad, Nat.eqb_refl.
+      pose proof (tracked_lt _ _ Et) as Hlt. apply Nat.ltb_lt in Hlt. rewrite Hlt. eapply acc1_some; eauto.
+    + apply Itgt; [exact H0|].
+      pose proof (process_edge_sameS c s e) as HS. rewrite E1 in HS. cbn [fst] in HS.
+      rewrite <- (sameS_trk _ _ HS). exact Ht.
+Qed.
+
+(* every member of the rest of the order either has a gradient already or is the target of an edge of a member that
+   is still to be processed *)
+Definition ready (h0 : heap) (l : list nat) (s : heap) : Prop :=
+  forall x, In x l -> gradOf s x <> None \/ exists p e, In p l /\ In e (edgesOf h0 p) /\ fst e = x.
+
+Lemma ready_head (h0 : heap) c l (s : heap) :
+  NoDup (c :: l) -> ordered h0 (c :: l) -> (forall x, In x (c :: l) -> trackedOf h0 x = true) ->
+  ready h0 (c :: l) s -> gradOf s c <> None.
+Proof.
+  intros Hnd Hord Htr Hr. destruct (Hr c (or_introl eq_refl)) as [H|(p & e & Hp & He & Hfe)]; [exact H|].
+  exfalso. apply NoDup_cons_iff in Hnd. destruct Hnd as [Hnc _]. apply Hnc.
+  assert (Ht : trackedOf h0 (fst e) = true) by (rewrite Hfe; apply Htr; left; reflexivity).
+  destruct Hord as [Hc Hord]. rewrite <- Hfe. destruct Hp as [<-|Hp].
+  - apply Hc; assumption.
+  - eapply ordered_in; eauto.
+Qed.
+
+Lemma outer_loop (body : heap -> denv -> denv -> doutcome)
+      (assign : denv -> denv -> Z -> dval -> denv * denv) (h0 : heap) :
+  wf_heap h0 ->
+  (forall (s : heap) g k c, (c < length s)%nat -> (forall e, In e (edgesOf s c) -> (fst e < length s)%nat) ->
+     let '(g0, l0) := assign g [] k (DI (Z.of_nat c)) in
+     match fold_left (process_edge rd c) (edgesOf s c) (s, Ok tt) with
+     | (s', Ok _) => exists g1, body s g0 l0 = DNormal heap s' g1 []
+     | (s', Err) => exists s'' g1, body s g0 l0 = DRet heap [DI 1] s'' g1 [] /\ errHeap s' s''
+     | (_, Panic) => body s g0 l0 = DPanic heap
+     end) ->
+  forall l (s : heap) log g k,
+  sameS h0 s -> NoDup l -> ordered h0 l -> (forall c, In c l -> trackedOf h0 c = true) -> ready h0 l s ->
+  match fold_left (process_node rd idseal) l (s, log, Ok tt) with
+  | (s', _, Ok _) => exists g1, drangeLoop heap body assign (map (fun i => DI (Z.of_nat i)) l) k s g [] = DNormal heap s' g1 []
+  | (s', _, Err) => exists s'' g1, drangeLoop heap body assign (map (fun i => DI (Z.of_nat i)) l) k s g [] =
+                                   DRet heap [DI 1] s'' g1 [] /\ errHeap s' s''
+  | (_, _, Panic) => drangeLoop heap body assign (map (fun i => DI (Z.of_nat i)) l) k s g [] = DPanic heap
+  end.
+Proof.
+  intros Hwf Hb. induction l as [|c l IH]; intros s log g k HS Hnd Hord Htr Hr.
+  - cbn. eauto.
+  - cbn [map drangeLoop fold_left].
+    assert (Hct : trackedOf h0 c = true) by (apply Htr; left; reflexivity).
+    assert (Hc : (c < length s)%nat) by (rewrite <- (proj1 HS); apply tracked_lt; exact Hct).
+    pose proof (ready_head h0 c l s Hnd Hord Htr Hr) as Hgc.
+    destruct (nth_error s c) as [n|] eqn:En; [|apply nth_error_None in En; lia].
+    assert (Hed : edgesOf s c = nedges n) by (unfold edgesOf; rewrite En; reflexivity).
+    assert (Hgr : gradOf s c = ngrad n) by (unfold gradOf; rewrite En; reflexivity).
+    destruct (ngrad n) as [gr|] eqn:Egr; [|congruence].
+    assert (Hrng : forall e, In e (edgesOf s c) -> (fst e < length s)%nat).
+    { intros e He. rewrite <- (sameS_edges _ _ HS) in He. apply (wf_heap_edgesOf _ Hwf) in He. lia. }
+    pose proof (Hb s g k c Hc Hrng) as H1.
+    destruct (assign g [] k (DI (Z.of_nat c))) as [g0 l0].
+    cbn [process_node]. rewrite En, Egr. rewrite (setGrad_same s c n gr En Egr). rewrite <- Hed.
+    pose proof (pe_fold_sameS c (edgesOf s c) s) as HS1.
+    destruct (fold_left (process_edge rd c) (edgesOf s c) (s, Ok tt)) as [s1 r1] eqn:Ef. cbn [fst] in HS1.
+    destruct r1 as [[]| |].
+    + destruct H1 as [g1 H1]. rewrite H1.
+      apply NoDup_cons_iff in Hnd. destruct Hnd as [Hnc Hnd]. destruct Hord as [Hoc Hord].
+      destruct (pe_fold_grads _ _ _ _ Ef) as (Hmono & Htgt).
+      apply IH; [eapply sameS_trans; eauto|exact Hnd|exact Hord|intros c0 H0; apply Htr; right; exact H0|].
+      intros x Hx. destruct (Hr x (or_intror Hx)) as [H|(p & e & [<-|Hp] & He & Hfe)].
+      * left. apply Hmono, H.
+      * left. rewrite <- Hfe. apply Htgt.
+        -- rewrite <- (sameS_edges _ _ HS). exact He.
+        -- rewrite <- (sameS_trk _ _ HS), Hfe. apply Htr. right. exact Hx.
+      * right. exists p, e. auto.
+    + rewrite pn_sticky by discriminate. destruct H1 as (s'' & g1 & H1 & He). rewrite H1. eauto.
+    + rewrite pn_sticky by discriminate. rewrite H1. reflexivity.
+Qed.
+
+
+(* ------------------------------------------------------------------------------------ *)
+(* 6. backward                                                                           *)
+(* ------------------------------------------------------------------------------------ *)
+
+Lemma vassign_main (g : denv) x (v : dval) : vassign true g [] x v = (dupd g x v, []).
+Proof. unfold vassign. cbn [dhas dlookup]. destruct (dhas g x); reflexivity. Qed.
+
+Lemma accumulate_err (h : heap) i g h' : accumulate h i g = (h', Err) -> h' = h.
+Proof.
+  unfold accumulate. destruct (gradOf h i) as [g0|]; [|intros E; inversion E].
+  destruct (v_arith BiAdd g0 g); intros E; inversion E; reflexivity.
+Qed.
+
+(* how a run of the Go function relates to a result of the model *)
+Definition bspec (M : heap * list (nat * T) * res unit) (run : doutcome) : Prop :=
+  match M with
+  | (h', _, Ok _) => exists g l, run = DRet heap [DI 0] h' g l
+  | (h', _, Err) => exists h'' g l, run = DRet heap [DI 1] h'' g l /\ errHeap h' h''
+  | (_, _, Panic) => run = DPanic heap
+  end.
+
+Ltac hx := autorewrite with dataexec;
+  cbn [tseq deval devals devalBin negb andb orb dassignAll vdefine Z.eqb];
+  rewrite ?vassign_main; unfold vlookup; cbn [dlookup]; rewrite ?dlookup_dupd;
+  cbn [String.eqb Ascii.eqb Bool.eqb].
+Ltac hxs := repeat (progress hx).
+
+Theorem backward_bp_topo (h : heap) (root fuel depth : nat) :
+  wf_heap h -> (root < length h)%nat ->
+  bspec (bp_topo rd idseal h root)
+        (drun fapp heap (hext rd) g_backward fuel depth [DL [DI (Z.of_nat root); DI (Z.of_nat root); DI (-1)]] h).
+Proof.
+  intros Hwf Hroot. unfold drun, g_backward. cbn [pmain dbody plocals dparams dbind]. dxs.
+  change (didx 0) with (Some 0%nat). cbn [nth_error].
+  rewrite (hext_gradContextOf h root Hroot). dxs.
+  rewrite (hext_get_tracked h root Hroot). dxs.
+  destruct (trackedOf h root) eqn:Etr; cbn [negb]; dxs.
+  2:{ unfold bp_topo, bspec. rewrite Etr. cbn [negb]. eauto. }
+  rewrite (hext_topologicalOrder h root Hroot). dxs.
+  set (order := topoOrder h root). set (h1 := markDirty h order).
+  assert (Hl1 : length h1 = length h) by apply length_markDirty.
+  assert (Hroot1 : (root < length h1)%nat) by lia.
+  rewrite hext_noteRule. dxs.
+  rewrite (hext_gradFn_seed h1 _ root (-1) Hroot1 ltac:(lia)).
+  (* the model side, up to the same point *)
+  unfold bp_topo. rewrite Etr. cbn [negb]. fold order. fold h1.
+  destruct (valOf h1 root) as [rv|] eqn:Ev.
+  2:{ exfalso. unfold valOf in Ev. destruct (nth_error h1 root) eqn:En; [discriminate|]. apply nth_error_None in En. lia. }
+  cbn [obind].
+  destruct (toOnes rv) as [ones| |] eqn:Eo; cbn [retT obind].
+  2:{ (* toOnes fails *) dxs. unfold bspec. exists h1. eexists. eexists. split; [reflexivity|left; reflexivity]. }
+  2:{ (* toOnes panics *) unfold bspec. reflexivity. }
+  dxs. cbn [Z.eqb negb]. dxs.
+  rewrite (hext_accumulateGrad h1 root ones Hroot1).
+  destruct (accumulate h1 root ones) as [h2 r2] eqn:Ea.
+  destruct r2 as [[]| |].
+  2:{ (* the seed cannot be added *) dxs. cbn [Z.eqb negb]. dxs. unfold bspec.
+      rewrite (accumulate_err _ _ _ _ Ea). eexists. eexists. eexists. split; [reflexivity|right; eexists; reflexivity]. }
+  2:{ unfold bspec. reflexivity. }
+  dxs. cbn [Z.eqb negb]. dxs.
+  (* the loops *)
+  match goal with |- context [drangeLoop heap ?b ?asg _ _ _ ?g0 _] =>
+    pose proof (outer_loop b asg h Hwf) as HL; set (genv := g0)
+  end.
+  match type of HL with ?P -> _ => assert (Hspec : P) end.
+  { clear HL. intros s g k c Hc Hrng. cbv beta iota.
+    hxs. rewrite (hext_get_backEdges s c Hc). hxs. rewrite encEdges_eq.
+    match goal with |- context [drangeLoop heap ?b ?asg _ _ _ ?g0 _] =>
+      pose proof (inner_loop b asg c) as HI; set (genv1 := g0)
+    end.
+    match type of HI with ?P -> _ => assert (Hsp : P) end.
+    { clear HI. intros s0 g0 k0 e Hc0 Hn Hrg. cbv beta iota. unfold encE. cbn [fst snd].
+      hxs. change (didx 0) with (Some 0%nat). cbn [nth_error].
+      rewrite (hext_gradContextOf s0 (fst e) Hrg). hxs.
+      rewrite (hext_get_tracked s0 (fst e) Hrg). hxs.
+      cbn [process_edge].
+      destruct (trackedOf s0 (fst e)) eqn:Et; cbn [negb]; hxs.
+      2:{ eexists. right. reflexivity. }
+      rewrite hext_noteRule. hxs.
+      rewrite (hext_gradFn_edge s0 _ c k0 e Hc0 Hn).
+      destruct (eval_rule rd s0 (snd e)) as [gr| |] eqn:Eev; cbn [retT obind].
+      2:{ hxs. exists s0. eexists. split; [reflexivity|left; reflexivity]. }
+      2:{ reflexivity. }
+      hxs. rewrite (hext_accumulateGrad s0 (fst e) gr Hrg).
+      destruct (accumulate s0 (fst e) gr) as [s1 r1] eqn:Eac.
+      destruct r1 as [[]| |].
+      - hxs. eexists. left. reflexivity.
+      - hxs. rewrite (accumulate_err _ _ _ _ Eac). eexists. eexists. split; [reflexivity|right; eexists; reflexivity].
+      - reflexivity. }
+    specialize (HI Hsp (edgesOf s c) [] s genv1 eq_refl Hc Hrng).
+    cbn [length] in HI. change (Z.of_nat 0) with 0 in HI.
+    destruct (fold_left (process_edge rd c) (edgesOf s c) (s, Ok tt)) as [s' r'].
+    destruct r' as [[]| |].
+    - destruct HI as [g1 HI]. rewrite HI. eauto.
+    - destruct HI as (s'' & g1 & HI & He). rewrite HI. eauto.
+    - rewrite HI. reflexivity. }
+  assert (HS2 : sameS h h2).
+  { eapply sameS_trans; [apply sameS_markDirty|]. fold order. fold h1.
+    pose proof (accumulate_sameS h1 root ones) as X. rewrite Ea in X. exact X. }
+  assert (Hwf' : TrackP.wf_heap h) by exact (proj1 (wf_heap_Forall h) Hwf).
+  assert (Hnd : NoDup order) by exact (DfsP.topoOrder_NoDup h root Hwf').
+  assert (Hord : ordered h order) by exact (DfsP.topoOrder_ordered h root Hwf').
+  assert (Htrk : forall c, In c order -> trackedOf h c = true) by (intros c Hc; exact (DfsP.topoOrder_tracked h root c Hwf' Hc)).
+  assert (Hrdy : ready h order h2).
+  { intros x Hx. destruct (Nat.eq_dec x root) as [->|Hne].
+    - left. destruct (accumulate_ok _ _ _ _ _ Ea eq_refl) as (o' & Hacc & ->).
+      rewrite gradOf_setGrad, Nat.eqb_refl. apply Nat.ltb_lt in Hroot1. rewrite Hroot1. eapply acc1_some; eauto.
+    - right. destruct (DfsP.topoOrder_pred h root x Hwf' Hx Hne) as (p & e & Hp & He & Hfe & _). exists p, e. auto. }
+  specialize (HL Hspec order h2 [] genv 0 HS2 Hnd Hord Htrk Hrdy).
+  destruct (fold_left (process_node rd idseal) order (h2, [], Ok tt)) as [[s' log'] r'].
+  unfold bspec. destruct r' as [[]| |].
+  - destruct HL as [g1 HL]. rewrite HL. hxs. eauto.
+  - destruct HL as (s'' & g1 & HL & He). rewrite HL. eauto.
+  - rewrite HL. reflexivity.
+Qed.
+
+
+(* ------------------------------------------------------------------------------------ *)
+(* 7. the statements asked for                                                           *)
+(* ------------------------------------------------------------------------------------ *)
+
+Notation seedEdge root := (DL [DI (Z.of_nat root); DI (Z.of_nat root); DI (-1)]).
+
+(* success: err = nil and the final heap is exactly the model's *)
+Corollary backward_ok (h : heap) (root fuel depth : nat) h' log :
+  wf_heap h -> (root < length h)%nat ->
+  bp_topo rd idseal h root = (h', log, Ok tt) ->
+  exists g l, drun fapp heap (hext rd) g_backward fuel depth [seedEdge root] h = DRet heap [DI 0] h' g l.
+Proof. intros Hwf Hr E. pose proof (backward_bp_topo h root fuel depth Hwf Hr) as H. rewrite E in H. exact H. Qed.
+
+(* untracked root: nothing happens (no well-formedness needed) *)
+Theorem backward_untracked (h : heap) (root fuel depth : nat) :
+  (root < length h)%nat -> trackedOf h root = false ->
+  exists g l, drun fapp heap (hext rd) g_backward fuel depth [seedEdge root] h = DRet heap [DI 0] h g l.
+Proof.
+  intros Hroot Etr. unfold drun, g_backward. cbn [pmain dbody plocals dparams dbind]. dxs.
+  change (didx 0) with (Some 0%nat). cbn [nth_error].
+  rewrite (hext_gradContextOf h root Hroot). dxs.
+  rewrite (hext_get_tracked h root Hroot). dxs. rewrite Etr. cbn [negb]. dxs. eauto.
+Qed.
+
+(* error: err != nil; the heap is the model's except possibly for one gradient set to nil *)
+Corollary backward_err (h : heap) (root fuel depth : nat) h' log :
+  wf_heap h -> (root < length h)%nat ->
+  bp_topo rd idseal h root = (h', log, Err) ->
+  exists h'' g l, drun fapp heap (hext rd) g_backward fuel depth [seedEdge root] h = DRet heap [DI 1] h'' g l /\
+                  errHeap h' h''.
+Proof. intros Hwf Hr E. pose proof (backward_bp_topo h root fuel depth Hwf Hr) as H. rewrite E in H. exact H. Qed.
+
+(* panic *)
+Corollary backward_panic (h : heap) (root fuel depth : nat) h' log :
+  wf_heap h -> (root < length h)%nat ->
+  bp_topo rd idseal h root = (h', log, Panic) ->
+  drun fapp heap (hext rd) g_backward fuel depth [seedEdge root] h = DPanic heap.
+Proof. intros Hwf Hr E. pose proof (backward_bp_topo h root fuel depth Hwf Hr) as H. rewrite E in H. exact H. Qed.
+
+(* what errHeap leaves intact: values, flags, edges, and every gradient but one *)
+Lemma errHeap_sameS (hm hg : heap) : errHeap hm hg -> sameS hm hg.
+Proof. intros [->|[t ->]]; [apply sameS_refl|apply sameS_setGrad]. Qed.
+
+Lemma errHeap_grads (hm hg : heap) : errHeap hm hg ->
+  exists t, forall j, j <> t -> gradOf hg j = gradOf hm j.
+Proof.
+  intros [->|[t ->]]; [exists 0%nat; reflexivity|]. exists t. intros j Hj. rewrite gradOf_setGrad.
+  apply Nat.eqb_neq in Hj. rewrite Hj. reflexivity.
+Qed.
+
+(* The invariant used for the outer loop is [ready] (section 5): by [ready_head] a context of the order always has a
+   gradient when its turn comes, so the branch [ngrad n = None] of process_node (where the model skips the node while
+   the Go loop would still evaluate the gradFn closures of its tracked edges, i.e. dereference y.Gradient() = nil) is
+   never taken by bp_topo on a well-formed heap.  Only wf_heap is assumed (it also gives "ids in range": an edge
+   target is smaller than its owner, which is a node of the heap); rules_own is not needed. *)
+
 End HeapBack.
+
+Print Assumptions backward_bp_topo.
+Print Assumptions backward_ok.
+Print Assumptions backward_untracked.
+Print Assumptions backward_err.
+Print Assumptions backward_panic.
+
+(* example: y = x.Scale(2).Add(c) on the heap of TrackP.TrackEx, back-propagation from y (id 5) and from the
+   untracked q (id 6) *)
+Module HeapBackEx.
+Import TrackP.TrackEx.
+#[local] Existing Instance Z_scalar.
+
+Definition run (root : nat) :=
+  match drun (fun _ _ => None) heap (hext RedSum) g_backward 0 0
+             [DL [DI (Z.of_nat root); DI (Z.of_nat root); DI (-1)]] e5 with
+  | DRet _ vs hg _ _ => Some (vs, hg)
+  | _ => None
+  end.
+
+Example ex_run5 : run 5 = Some ([DI 0], fst (fst (bp_topo RedSum (fun _ g => g) e5 5))) /\
+                  option_map (fun p => gradOf (snd p) 0) (run 5) = Some (Some (vec2 2 2)).
+Proof. vm_compute. split; reflexivity. Qed.
+
+Example ex_run6 : run 6 = Some ([DI 0], e5).
+Proof. vm_compute. reflexivity. Qed.
+End HeapBackEx.
